@@ -82,19 +82,19 @@ def digitVal (c : Char) : Nat := c.toNat - 48
 
 def digitsVal (ds : Str) : Nat := ds.foldl (fun a c => 10 * a + digitVal c) 0
 
+/-- split off an optional sign -/
+def signOf : Str → Bool × Str
+  | '-' :: r => (true, r)
+  | '+' :: r => (false, r)
+  | t => (false, t)
+
 /-- `strtol(s, &endp, 10)`: `none` when no conversion is possible (`endp == s`), else the exact value and the
     unconverted rest. -/
 def strtol (s : Str) : Option (Int × Str) :=
-  let t := s.dropWhile isSpace
-  let (neg, t) := match t with
-    | '-' :: r => (true, r)
-    | '+' :: r => (false, r)
-    | _ => (false, t)
-  let ds := t.takeWhile isDigit
+  let st := signOf (s.dropWhile isSpace)
+  let ds := st.2.takeWhile isDigit
   if ds.isEmpty then none
-  else
-    let v : Int := digitsVal ds
-    some (if neg then -v else v, t.dropWhile isDigit)
+  else some ((if st.1 then - (digitsVal ds : Int) else (digitsVal ds : Int)), st.2.dropWhile isDigit)
 
 /-- `esl_str_IsInteger` (`s == NULL` is the caller's `none`) -/
 def isInteger (s : Str) : Bool :=
@@ -123,11 +123,9 @@ structure Dec where
 /-- `strtod` restricted to the decimal grammar `ws* [+-]? (d+ (. d*)? | . d+) ([eE] [+-]? d+)?`; `none` when no
     conversion.  (Hexadecimal, `inf`, `nan` forms are outside the model; the generator does not produce them.) -/
 def strtod (s : Str) : Option (Dec × Str) :=
-  let t := s.dropWhile isSpace
-  let (neg, t) := match t with
-    | '-' :: r => (true, r)
-    | '+' :: r => (false, r)
-    | _ => (false, t)
+  let st := signOf (s.dropWhile isSpace)
+  let neg := st.1
+  let t := st.2
   let ip := t.takeWhile isDigit
   let t1 := t.dropWhile isDigit
   let (fp, t2, dot) := match t1 with
@@ -204,29 +202,32 @@ def idxOf (c : Char) : Str → Option Nat
 def parseRange (range : Str) (c : Char) : Option Range :=
   match idxOf c range with
   | none => none
-  | some 0 =>
-    let r1 := range.getD 1 '\x00'
-    let r2 := range.getD 2 '\x00'
-    if r1 == '>' then
-      if r2 == '=' then some { lower := some (range.drop 3), geq := true, upper := none, leq := false }
-      else some { lower := some (range.drop 2), geq := false, upper := none, leq := false }
-    else if r1 == '<' then
-      if r2 == '=' then some { lower := none, geq := false, upper := some (range.drop 3), leq := true }
-      else some { lower := none, geq := false, upper := some (range.drop 2), leq := false }
-    else none
   | some p =>
-    if range.getD (p + 1) '\x00' != '<' then none
+    if p == 0 then
+      -- "c>=a", "c>a", "c<=b", "c<b"
+      let r1 := range.getD 1 '\x00'
+      let r2 := range.getD 2 '\x00'
+      if r1 == '>' then
+        if r2 == '=' then some { lower := some (range.drop 3), geq := true, upper := none, leq := false }
+        else some { lower := some (range.drop 2), geq := false, upper := none, leq := false }
+      else if r1 == '<' then
+        if r2 == '=' then some { lower := none, geq := false, upper := some (range.drop 3), leq := true }
+        else some { lower := none, geq := false, upper := some (range.drop 2), leq := false }
+      else none
     else
-      let (leq, upper) := if range.getD (p + 2) '\x00' == '=' then (true, range.drop (p + 3)) else (false, range.drop (p + 2))
-      -- ptr--; if (*ptr == '=') { geq; ptr--; } if (*ptr != '<') EINVAL
-      let q := p - 1
-      let (geq, q?) : Bool × Option Nat :=
-        if range.getD q '\x00' == '=' then (true, if q == 0 then none else some (q - 1)) else (false, some q)
-      match q? with
-      | none => none      -- would read before the string: malformed table
-      | some q =>
-        if range.getD q '\x00' != '<' then none
-        else some { lower := some range, geq := geq, upper := some upper, leq := leq }
+      -- "a<=c<=b": upper bound after c, lower bound = start of the string
+      if range.getD (p + 1) '\x00' != '<' then none
+      else
+        let leq := range.getD (p + 2) '\x00' == '='
+        let upper := if leq then range.drop (p + 3) else range.drop (p + 2)
+        -- ptr--; if (*ptr == '=') { geq; ptr--; } if (*ptr != '<') EINVAL
+        let q := p - 1
+        let geq := range.getD q '\x00' == '='
+        if geq && q == 0 then none      -- would read before the string: malformed table
+        else
+          let q' := if geq then q - 1 else q
+          if range.getD q' '\x00' != '<' then none
+          else some { lower := some range, geq := geq, upper := some upper, leq := leq }
 
 /-- `verify_integer_range`: `true` = `eslOK` -/
 def intRangeOk (arg : Str) (range : Option Str) : Bool :=
